@@ -2919,10 +2919,11 @@ class ChannelManager:
     def on_channel_closed(self, channel: ClassicChannel | LeCreditBasedChannel) -> None:
         if classic_connection_channels := self.channels.get(channel.connection.handle):
             classic_connection_channels.pop(channel.source_cid, None)
-        elif le_connection_channels := self.le_coc_channels.get(
+        if le_connection_channels := self.le_coc_channels.get(
             channel.connection.handle
         ):
-            le_connection_channels.pop(channel.destination_cid, None)
+            if le_connection_channels.get(channel.destination_cid) is channel:
+                del le_connection_channels[channel.destination_cid]
 
     async def create_le_credit_based_channel(
         self,
